@@ -18,7 +18,7 @@ from .common import Corr
 
 ID = "C17"
 LEAN_MODULES = ["TempestVerif.Props.C17", "TempestVerif.Props.C17Run", "TempestVerif.Props.C17Nested",
-                "TempestVerif.Props.C17Sites"]
+                "TempestVerif.Props.C17Sites", "TempestVerif.Props.C17Source"]
 RULE = ("suite ops: random op sequences of length 5..60 over set/update (copy=True/False, None/scalar/new array/previously "
         "returned array), get_current(key|None), get_history(key, index|None, flat), get_last_history, commit(strict), "
         "compute_results, compute_logw_and_logz(beta), to_dict, update_from_dict / from_dict of an exported dictionary (in ~2/3 of the "
@@ -90,8 +90,10 @@ def translators():
     import os
     import re
     from tempest import state_manager as smod
-    from translate import g5_tables, g5_smsites
-    rows = [g5_tables.generate(), g5_smsites.generate()]
+    from translate import g5_tables, g5_smsites, g22_statemgr
+    # G22: the bodies of the accessors / mutators compiled to terms over the models' heap operations (Gen/StateMgrSrc.lean);
+    # Props/C17Source.lean proves that Model.StateMgr.step / Model.StateMgrN.step compute exactly those terms
+    rows = [g5_tables.generate(), g5_smsites.generate(), g22_statemgr.generate()]
     src = open(os.path.join(common.LEAN, "TempestVerif", "Model", "StateMgr.lean")).read()
     out = {}
     for name in ("currentKeys", "historyKeys"):
